@@ -218,6 +218,24 @@ def build(ctx):
     g.trace('tr_SE3_inv', [('X', 'M44')], lambda X: E3(X).inv().A, sampler=lambda rng: [rnd_se3(rng)])
     g.trace('tr_SO2_mul', [('X', 'M22'), ('Y', 'M22')], lambda X, Y: (S2(X) * S2(Y)).A, sampler=lambda rng: [rnd_so2(rng), rnd_so2(rng)])
     g.trace('tr_SE2_mul', [('X', 'M33'), ('Y', 'M33')], lambda X, Y: (E2(X) * E2(Y)).A, sampler=lambda rng: [rnd_se2(rng), rnd_se2(rng)])
+    # the in-place forms X *= Y, X /= Y through the classes (they must be the binary operators)
+    def ip(cls_, op):
+        def f(X, Y):
+            x = cls_(X)
+            if op == '*':
+                x *= cls_(Y)
+            else:
+                x /= cls_(Y)
+            return x.A
+        return f
+    g.trace('tr_SO3_imul', [('X', 'M33'), ('Y', 'M33')], ip(S3, '*'), sampler=lambda rng: [rnd_so3(rng), rnd_so3(rng)])
+    g.trace('tr_SO3_idiv', [('X', 'M33'), ('Y', 'M33')], ip(S3, '/'), sampler=lambda rng: [rnd_so3(rng), rnd_so3(rng)])
+    g.trace('tr_SE3_imul', [('X', 'M44'), ('Y', 'M44')], ip(E3, '*'), sampler=lambda rng: [rnd_se3(rng), rnd_se3(rng)])
+    g.trace('tr_SE3_idiv', [('X', 'M44'), ('Y', 'M44')], ip(E3, '/'), sampler=lambda rng: [rnd_se3(rng), rnd_se3(rng)])
+    g.trace('tr_SO2_imul', [('X', 'M22'), ('Y', 'M22')], ip(S2, '*'), sampler=lambda rng: [rnd_so2(rng), rnd_so2(rng)])
+    g.trace('tr_SE2_imul', [('X', 'M33'), ('Y', 'M33')], ip(E2, '*'), sampler=lambda rng: [rnd_se2(rng), rnd_se2(rng)])
+    with concolic.object_alloc():
+        g.trace('tr_SE2_idiv', [('X', 'M33'), ('Y', 'M33')], ip(E2, '/'), sampler=lambda rng: [rnd_se2(rng), rnd_se2(rng)])
     # SO2.inv / SE2.inv build their result with check=False since fix 1c511ed: traceable like the 3-D ones
     g.trace('tr_SO2_inv', [('X', 'M22')], lambda X: S2(X).inv().A, sampler=lambda rng: [rnd_so2(rng)])
     g.trace('tr_SO2_div', [('X', 'M22'), ('Y', 'M22')], lambda X, Y: (S2(X) / S2(Y)).A, sampler=lambda rng: [rnd_so2(rng), rnd_so2(rng)])
@@ -469,6 +487,10 @@ class Oracle:
         worst = max([self.check_value(k2 or kind, e)[0] for e, k2 in [(o if isinstance(o, tuple) else (o, None)) for o in operands]] + [0.0])
         grade = 'valid-operands' if worst <= TOL else 'invalid-operands'
         replay = dict(replay, op=op, operands_hex=[hexl(o[0] if isinstance(o, tuple) else o) for o in operands], operand_residual=worst)
+        if isinstance(ex, OperandSpoiled):
+            self.ctx.fail(f'oracle:{clsname}.{op}:operand-object-left-invalid', f"{clsname} augmented assignment {op}: after the operation the {ex} operand object "
+                          "no longer holds a valid member (the operator wrote into an array it does not own)", replay)
+            return
         if op == 'explog' and isinstance(ex, TypeError) and grade == 'valid-operands':
             angs = [rot_angle(o[0] if isinstance(o, tuple) else o, kind) for o in operands]
             if angs and max(angs) <= 1e-13:
@@ -680,6 +702,20 @@ class Oracle:
         self.check(site, kind, v, inputs, multi)
         return v
 
+    F32 = 'oracle:float32-operand:r2q-single-precision:invalid-value'
+
+    def float32_invalid(self, site, kind, elems, operand_arrays, replay):
+        """base.r2q of a float32-typed rotation matrix works in single precision and returns a quaternion whose norm is off by
+        ~1e-8; interp (and UnitQuaternion(SO3)) use it unnormalised, so a value that goes through r2q of a float32 operand is
+        valid only to ~1e-7.  Reported under one root-cause key: invalid value, residual < 1e-5, some operand array is float32."""
+        worst = max([self.check_value(kind, e)[0] for e in elems] + [0.0])
+        if not (TOL < worst < 1e-5) or not any(np.asarray(a).dtype == np.float32 for a in operand_arrays):
+            return False
+        self.ctx.count('oracle:' + site)
+        self.ctx.fail(self.F32, f"{site}: a float32-typed (exactly valid) operand goes through r2q in single precision; the returned value has validity "
+                      f"residual {worst:.3g}", dict(replay, site=site, residual=worst, operands=[np.asarray(a).tolist() for a in operand_arrays]))
+        return True
+
     def antipodal_invalid(self, site, kind, elems, pair, inputs):
         """3-D interpolation between R0 and R1 goes through q0 = r2q(R0), q1 = r2q(R1) and slerp(q0, q1, s) WITHOUT shortest:
         when both are (nearly) half-turns the two quaternions can come out with opposite signs (q0.q1 ~ -1), slerp then divides
@@ -758,6 +794,19 @@ class Oracle:
             self.icall('SE3.interp:int', 'T3', 'SE3', lambda: interp_checked(SE3.Tx(ti[0]) * SE3(Tn, check=False), s).data, [(Tn, 'T3')], np.r_[Tn.flatten(), ti, s], multi=True)
             e2i = [int(v) for v in rng.integers(-9, 10, size=2)]
             Yi = SE2(e2i[0], e2i[1])
+            # ---- float32-typed (exactly valid, axis-aligned) operands through the r2q-based routes
+            X32 = self.leaf_exact(SO3)
+            if X32.A.dtype == np.float32:
+                for site32, kind32, fn32 in (('SO3.interp:float32', 'R3', lambda: interp_checked(X32, s).data),
+                                             ('SO3.interp:start:float32', 'R3', lambda: interp_checked(SO3(T0[:3, :3], check=False), s, X32).data),
+                                             ('UnitQuaternion(SO3):float32', 'Q', lambda: UnitQuaternion(X32).data)):
+                    try:
+                        v32 = fn32()
+                    except Exception as ex:
+                        self.report_raise('SO3', 'interp', ex, kind32, [(X32.A, 'R3')], {'site': site32, 'inputs_hex': hexl(np.r_[X32.A.flatten(), s])})
+                        continue
+                    if not self.float32_invalid(site32, kind32, v32, [X32.A], {'s': s}):
+                        self.check(site32, kind32, v32, np.r_[X32.A.flatten(), s], multi=True)
             # ---- 3-D rotations (SO(3) case of trinterp, SO3.interp)
             R0, R1, Rn = T0[:3, :3], T1[:3, :3], Tn[:3, :3]
             ops3 = [(R0, 'R3'), (R1, 'R3')]
@@ -817,6 +866,8 @@ class Oracle:
             # the trees are built over VALID leaves: an invalid interpolated value is reported here, under the interpolation keys
             site = f'{cls.__name__}.interp:leaf'
             pair = (x.A[:3, :3], y.A[:3, :3]) if cls in (SO3, SE3) else None
+            if self.float32_invalid(site, kind, z.data, [x.A, y.A], {'s': s}):
+                return x
             if pair is not None and self.antipodal_invalid(site, kind, z.data, pair, np.r_[x.A.flatten(), y.A.flatten(), s]):
                 return x
             rz = max(self.check_value(kind, e)[0] for e in z.data)
@@ -829,7 +880,42 @@ class Oracle:
             return z if rz <= 1e-12 else x
         return x
 
+    def leaf_exact(self, cls):
+        """a member whose array has INTEGER or float32 dtype: axis-aligned rotations (signed permutation matrices, det +1),
+        integer translations; exactly representable, so a valid member to 0"""
+        rng = self.rng
+        dt = [np.int64, np.int32, np.float32][int(rng.integers(3))]
+        if cls in (SO3, SE3):
+            while True:
+                P = np.eye(3)[rng.permutation(3)] * rng.choice([-1, 1], size=3)[:, None]
+                if round(np.linalg.det(P)) == 1:
+                    break
+            if cls is SO3:
+                return SO3(P.astype(dt), check=False)
+            if rng.random() < 0.3:
+                return SE3(int(rng.integers(-9, 10)), int(rng.integers(-9, 10)), int(rng.integers(-9, 10)))   # built from Python ints
+            T = np.eye(4)
+            T[:3, :3], T[:3, 3] = P, rng.integers(-9, 10, size=3)
+            return SE3(T.astype(dt), check=False)
+        if cls in (SO2, SE2):
+            P = [np.eye(2), np.array([[0, -1], [1, 0]]), np.array([[-1, 0], [0, -1]]), np.array([[0, 1], [-1, 0]])][int(rng.integers(4))]
+            if cls is SO2:
+                return SO2(P.astype(dt), check=False)
+            if rng.random() < 0.3:
+                return SE2(int(rng.integers(-9, 10)), int(rng.integers(-9, 10)))
+            T = np.eye(3)
+            T[:2, :2], T[:2, 2] = P, rng.integers(-9, 10, size=2)
+            return SE2(T.astype(dt), check=False)
+        q = np.zeros(4)
+        q[int(rng.integers(4))] = rng.choice([-1, 1])
+        return uq_raw(q.astype(dt))
+
     def leaf0(self, cls):
+        if self.rng.random() < 0.2:
+            return self.leaf_exact(cls)
+        return self.leaf1(cls)
+
+    def leaf1(self, cls):
         rng = self.rng
         k = int(rng.integers(5))
         if cls is SO3:
@@ -857,6 +943,7 @@ class Oracle:
             x = self.leaf(cls)
             return f"leaf{hexl(x.A)}", (lambda: x)
         ops = ['mul', 'div', 'inv', 'pow', 'prod'] + (['interp'] if cls in (SO3, SE3, SE2, UnitQuaternion) else [])
+        ops += ['imul', 'idiv'] if cls is not UnitQuaternion else ['imul', 'ipow']
         ops += ['explog'] if cls is not UnitQuaternion else []
         ops += ['twist'] if cls in (SE3, SE2) else []
         op = str(rng.choice(ops))
@@ -873,6 +960,32 @@ class Oracle:
                 except Exception as ex:
                     raise OpRaises(opname, ex, args)
             return g
+        if op in ('imul', 'idiv'):
+            db, fb = self.tree(cls, depth - 1)
+
+            def inplace(x, y):
+                # the augmented assignment itself (X *= Y, X /= Y): whatever object it leaves in X is the value; the two
+                # operand objects must still be members afterwards (an in-place shortcut that writes into a shared or
+                # integer / float32 array shows up in one of the three)
+                x0, y0 = x, y
+                kind_ = {SO3: 'R3', SE3: 'T3', SO2: 'R2', SE2: 'T2'}.get(cls, 'Q')
+                ok0 = {nm: max(self.check_value(kind_, e)[0] for e in o.data) <= TOL for nm, o in (('left', x0), ('right', y0))}
+                if op == 'imul':
+                    x *= y
+                else:
+                    x /= y
+                for nm, o in (('left', x0), ('right', y0)):
+                    if o is not x and ok0[nm] and max(self.check_value(kind_, e)[0] for e in o.data) > TOL:
+                        raise OperandSpoiled(nm)
+                return x
+            return f"({da} {'*=' if op == 'imul' else '/='} {db})", guarded(op, (inplace, lambda: (fa(), fb())))
+        if op == 'ipow':
+            n = int(rng.integers(-8, 9))
+
+            def ipow(x):
+                x **= n
+                return x
+            return f"({da} **= {n})", guarded('ipow', (ipow, lambda: (fa(),)))
         if op in ('mul', 'div'):
             db, fb = self.tree(cls, depth - 1)
             return (f"({da} {'*' if op == 'mul' else '/'} {db})",
@@ -901,7 +1014,18 @@ class Oracle:
                 return (x.Twist3().SE3() if cls is SE3 else x.Twist2().SE2()) if len(x) == 1 else x
             return f"{op}({da})", guarded(op, (conv, lambda: (fa(),)))
         s = float(rng.choice([0.0, 1.0, 1e-12, 1 - 1e-12, rng.uniform(0, 1), rng.uniform(0, 1)]))
-        return f"interp({da}, {s.hex()})", guarded('interp', ((lambda a: a.interp(s)) if cls is UnitQuaternion else (lambda a: interp_checked(a, s)), lambda: (fa(),)))
+        kind_i = {SO3: 'R3', SE3: 'T3', SO2: 'R2', SE2: 'T2'}.get(cls, 'Q')
+
+        def interp_node(a):
+            r = a.interp(s) if cls is UnitQuaternion else interp_checked(a, s)
+            if self.float32_invalid(f'{cls.__name__}.interp:node', kind_i, r.data, list(a.data), {'s': s}):
+                return a      # reported under its root cause; the tree goes on with the operand
+            if any(np.asarray(e).dtype == np.float32 for e in a.data) and max(self.check_value(kind_i, e)[0] for e in r.data) > 1e-12:
+                # same root cause below the tolerance (valid to 1e-9, but carrying 1e-12..1e-9 of single-precision drift): like an
+                # interpolated leaf that is not clean, it is not handed on, so that later operators are not blamed for it
+                return a
+            return r
+        return f"interp({da}, {s.hex()})", guarded('interp', (interp_node, lambda: (fa(),)))
 
     def trees(self, N):
         for cls, kind in ((SO3, 'R3'), (SE3, 'T3'), (SO2, 'R2'), (SE2, 'T2'), (UnitQuaternion, 'Q')):
@@ -922,6 +1046,10 @@ class Oracle:
                     if prob:
                         self.ctx.fail(f'oracle:{site}:{prob}', f"expression tree over valid {cls.__name__} gives an invalid value ({prob}, residual {r:.3g})",
                                       {'site': site, 'tree': d, 'value': np.asarray(e, dtype=float).tolist(), 'residual': r})
+
+
+class OperandSpoiled(Exception):
+    """an augmented assignment left one of its operand objects (not the result) holding an invalid value"""
 
 
 class OpRaises(Exception):
